@@ -6,6 +6,7 @@ from hypothesis import strategies as st
 from . import models as M
 
 NAMES = ["a", "ab", "a_b", "aa", "b", "c", "m", "util"]
+NON_ASCII_NAMES = ["gr\u00f6\u00dfe", "\u00fcbersicht", "\u6570\u636e"]  # valid identifiers, stable under NFKC
 
 
 def dotted(root: str, rel: str) -> str:
@@ -19,6 +20,9 @@ def project_trees(draw, root="proj", max_dirs=6, max_depth=4, names=NAMES, with_
     dirs = [""]
     if draw(st.integers(0, 9)) == 0:
         max_dirs, max_depth = max_dirs + 5, max_depth + 3  # a tenth of the projects are larger and deeper
+    if draw(st.integers(0, 9)) == 0:
+        # a tenth of the projects have directories / files whose names are identifiers outside ASCII (round 9)
+        names = list(names) + NON_ASCII_NAMES
     for _ in range(draw(st.integers(0, max_dirs))):
         parent = draw(st.sampled_from(dirs))
         depth = parent.count("/") + (1 if parent else 0)
